@@ -126,6 +126,11 @@ class SynchronizedMessages:
             for seq, uid in enumerate(needs_reset, lowest_idx + 1):
                 self._seqs_cache[uid] = seq
 
+    @property
+    def has_pending_remove(self) -> bool:
+        """True if expunged messages are still waiting to be reported."""
+        return bool(self._pending_remove)
+
     def _remove(self, uids: Iterable[int], pending: bool) -> None:
         if pending:
             self._pending_remove.update(uids)
